@@ -126,6 +126,7 @@ class Facts:
         self.doc = doc
         self.fns = {f["path"]: f for f in doc["fns"]}
         self.bodies = {b["path"]: b for b in doc["bodies"]}
+        self.promoted = {b["path"]: b for b in doc.get("promoted", [])}     # promoted constants of the bodies (`&(0.0..=1.0)` ...)
         self.impls = {i["path"]: i for i in doc["impls"]}
         self.adts = {a["name"]: a for a in doc["adts"]}
         self.traits = {t["name"]: t for t in doc["traits"]}
